@@ -41,21 +41,24 @@ GenMotion(vs, sd, t, j, searches) ==
         ch == IF Len(l) > 1 /\ Pick(sd, t, j + 1, 3) > 0 THEN l[Pick(sd, t, j + 2, Len(l) - 1) + 1] ELSE Elem(sd, t, j + 2, CharPool)
         mk == IF Pick(sd, t, j + 3, 2) = 0 THEN 97 ELSE IF Pick(sd, t, j + 4, 2) = 0 THEN 98 ELSE (IF k = "'" THEN 39 ELSE 96)
         usable == mk \in DOMAIN vs.ed.marks /\ vs.ed.marks[IF mk = 96 THEN 39 ELSE mk].known
-    IN IF k \in {"H", "M", "L"} /\ NR(vs) >= vs.rows THEN Mot("k")        \* these depend on the scrolling policy once the text does not fit
+    IN IF k \in {"H", "M", "L"} /\ NR(vs) >= vs.rows /\ Profile # "scroll" THEN Mot("k")        \* these depend on the scrolling policy once the text does not fit
        ELSE IF k \in {"'", "`"} THEN (IF usable THEN [k |-> k, ch |-> mk, re |-> <<>>, so |-> 0] ELSE Mot("w"))
        ELSE IF k \in {"f", "F", "t", "T"} THEN [k |-> k, ch |-> IF ch = NL THEN 120 ELSE ch, re |-> <<>>, so |-> 0]
        ELSE IF k \in {"/", "?"} THEN [k |-> k, ch |-> 0, re |-> Elem(sd, t, j + 5, PatPool),
                                       so |-> IF Pick(sd, t, j + 6, 8) = 0 THEN 1 ELSE IF Pick(sd, t, j + 6, 8) = 1 THEN -1 ELSE 0]
        ELSE Mot(k)
 
+ScrollKeys == <<"^E", "^Y", "^D", "^U", "^F", "^B", "zn", "z.", "z-", "^E", "^Y", "^D", "^U">>
 GenCmd(vs, sd, t) ==
     LET q == Pick(sd, t, 0, 100)
         c1 == Elem(sd, t, 1, Counts)
         reg == Elem(sd, t, 2, RegPool)
         keys == Elem(sd, t, 3, KeyPool)
-        pmot == IF Profile = "mot" THEN 70 ELSE IF Profile = "search" THEN 70 ELSE 22
+        pmot == IF Profile = "mot" THEN 70 ELSE IF Profile = "search" THEN 70 ELSE IF Profile = "scroll" THEN 55 ELSE 22
         searches == Profile = "search" /\ Pick(sd, t, 30, 10) < 8
-    IN IF NR(vs) = 0 /\ q < 80 THEN [k |-> "ins", ik |-> Elem(sd, t, 4, <<"i", "a", "o", "O", "A", "I">>), keys |-> Elem(sd, t, 5, KeyPool), reg |-> 0, c1 |-> 0]
+    IN IF Profile = "scroll" /\ NR(vs) > 0 /\ Pick(sd, t, 40, 100) < 45
+       THEN [k |-> "scr", key |-> Elem(sd, t, 41, ScrollKeys), c1 |-> Elem(sd, t, 42, <<0, 0, 0, 1, 2, 3, 7>>), reg |-> 0]
+       ELSE IF NR(vs) = 0 /\ q < 80 THEN [k |-> "ins", ik |-> Elem(sd, t, 4, <<"i", "a", "o", "O", "A", "I">>), keys |-> Elem(sd, t, 5, KeyPool), reg |-> 0, c1 |-> 0]
        ELSE IF q < pmot THEN
             LET m == GenMotion(vs, sd, t, 10, searches) IN
             [k |-> "mot", m |-> m, c1 |-> IF m.k = "N%" THEN 1 + Pick(sd, t, 6, 110)
@@ -82,7 +85,7 @@ GenCmd(vs, sd, t) ==
             ELSE [k |-> "m", ch |-> Elem(sd, t, 8, <<97, 98>>), c1 |-> 0, reg |-> 0]
 
 RegList(ed) == SetToSeq({<<r, IF ed.regs[r].ln THEN 1 ELSE 0, ed.regs[r].s>> : r \in {x \in DOMAIN ed.regs : ed.regs[x].has}})
-Proj(vs) == [lines |-> Lines(vs.ed), row |-> vs.row, off |-> vs.off, xcol |-> vs.xcol, regs |-> RegList(vs.ed),
+Proj(vs) == [lines |-> Lines(vs.ed), row |-> vs.row, off |-> vs.off, xcol |-> vs.xcol, regs |-> RegList(vs.ed), top |-> vs.top,
              ok |-> IF vs.ok THEN 1 ELSE 0]
 (* properties of the reference itself, on every step: the cursor is on an existing character of an existing line and never
    on the newline of a non-empty line (C07); a motion never changes the text; every character is a scalar value (C16) *)
@@ -99,7 +102,7 @@ RegNames == {0, 97, 98} \cup 49..57
 RECURSIVE ConcatLines(_)
 ConcatLines(ls) == IF ls = <<>> THEN <<>> ELSE IF Len(ls) = 1 THEN ls[1] ELSE ls[1] \o <<10>> \o ConcatLines(Tail(ls))
 (* the first command of every script fills the buffer *)
-FirstKeys(sd) == LET n == 4 + Pick(sd, 0, 0, 6) IN
+FirstKeys(sd) == LET n == IF Profile = "scroll" THEN 9 + Pick(sd, 0, 0, 14) ELSE 4 + Pick(sd, 0, 0, 6) IN
                  ConcatLines([i \in 1..n |-> Elem(sd, 0, i, TextPool)])
 Ins(keys) == [k |-> "ins", ik |-> "i", keys |-> keys, reg |-> 0, c1 |-> 0]
 MotC(k, c1) == [k |-> "mot", m |-> Mot(k), c1 |-> c1, reg |-> 0]
@@ -183,7 +186,7 @@ RScript(vs, sd, t, n, pending, last, macro, atseen) ==
                       last, macro, atseen)
 
 
-Start0 == [NewVi(RegNames, {97, 98}) EXCEPT !.ai = EnvN("AI", 1) = 1]
+Start0 == [NewVi(RegNames, {97, 98}) EXCEPT !.ai = EnvN("AI", 1) = 1, !.rows = EnvN("ROWS", 23)]
 (* ---- exhaustive single steps (profile "exh") ----------------------------------------------------------------------------
    Every command of ExhCmds from every cursor position of a small buffer: the cursor is put on the position with G, 0 and l,
    the command runs, and an undo takes the text back when it changed.  All steps go through ViCmd like any other, so the
